@@ -8,7 +8,7 @@
 From Coq Require Import NArith ZArith List Bool Arith Lia.
 From Snap.Crc Require Import CrcModel CrcProofs.
 From Snap.Codec Require Import Varint CodecModel.
-From Snap.Content Require Import CrcBurstBytes.
+From Snap.Content Require Import CrcBurstBytes NoConfModel.
 Import ListNotations.
 Local Open Scope N_scope.
 
@@ -190,4 +190,110 @@ Proof.
     first [apply keeps_rec_file | apply keeps_rec_info | apply keeps_rec_hole | apply keeps_rec_link | apply keeps_rec_dir
           | apply keeps_rec_hash | apply keeps_rec_blocksize | apply keeps_rec_hashsize | apply keeps_rec_blockmax
           | apply keeps_rec_map | apply keeps_rec_parity_P | apply keeps_rec_parity_Q | apply post_fail | idtac].
+Qed.
+
+(* ------------------------------------------------------------------------------------------------ *)
+(** * The record loop and decode *)
+
+Lemma firstn_consumed (pre t : list N) : firstn (length (pre ++ t) - length t) (pre ++ t) = pre.
+Proof.
+  rewrite app_length. replace (length pre + length t - length t)%nat with (length pre) by lia.
+  rewrite firstn_app, Nat.sub_diag, firstn_all. cbn [firstn]. apply app_nil_r.
+Qed.
+
+Lemma crc_spec_lt32 P : bytes P -> crc32c_spec 0 P < 2^32.
+Proof.
+  intros HP. rewrite crc_spec0. apply lxor_lt32; [|exact iv_lt32]. apply crc_bytes_lt32; [exact iv_lt32|exact HP].
+Qed.
+
+Lemma records_done_checked fuel k all d l r : d_crc d = true -> records fuel k all d l = Ok r -> l = [] /\ r = d.
+Proof.
+  intros Hc H. destruct fuel; cbn [records] in H; destruct l; try (rewrite Hc in H; discriminate); injection H as <-; auto.
+Qed.
+
+Lemma records_sealed : forall fuel k pre d l r, bytes (pre ++ l) -> d_crc d = false ->
+  records fuel k (pre ++ l) d l = Ok r -> d_crc r = true -> sealed (pre ++ l).
+Proof.
+  induction fuel as [|fuel IH]; intros k pre d l r Hb Hd H Hr.
+  - destruct l as [|c t]; cbn [records] in H; [injection H as <-; congruence|]. rewrite Hd in H. discriminate.
+  - destruct l as [|c t]; cbn [records] in H; [injection H as <-; congruence|]. rewrite Hd in H.
+    destruct (record k (pre ++ c :: t) d c t) as [[d' rest]| |] eqn:ER; try discriminate.
+    destruct (c =? 78) eqn:EN.
+    + (* the 'N' record *)
+      unfold record in ER.
+      assert (Ec : c = 78) by (apply N.eqb_eq, EN). subst c. cbn in ER. unfold rec_crc in ER.
+      destruct (sgetble32 t) as [[stored rest']| |] eqn:EG; try discriminate.
+      destruct (stored =? u32 (crc_consumed (pre ++ 78 :: t) t)) eqn:EC; [|discriminate].
+      injection ER as <- <-. apply N.eqb_eq in EC.
+      apply records_done_checked in H; [|reflexivity]. destruct H as [-> _].
+      unfold sgetble32 in EG. destruct (take 4 t) as [[h r']| |] eqn:ET; try discriminate.
+      destruct (take_ok _ _ _ _ ET) as [Et _].
+      destruct h as [|b0 [|b1 [|b2 [|b3 [|? ?]]]]]; try discriminate.
+      injection EG as EG ->. rewrite app_nil_r in Et. subst t.
+      apply bytes_app in Hb. destruct Hb as [Hpre Hb]. inversion Hb as [|? ? Hc Ht]; subst.
+      inversion Ht as [|? ? B0 Ht1]; subst. inversion Ht1 as [|? ? B1 Ht2]; subst.
+      inversion Ht2 as [|? ? B2 Ht3]; subst. inversion Ht3 as [|? ? B3 _]; subst.
+      unfold crc_consumed in EC.
+      replace (pre ++ 78 :: [b0; b1; b2; b3]) with ((pre ++ [78]) ++ [b0; b1; b2; b3]) in * by (rewrite <- app_assoc; reflexivity).
+      rewrite firstn_consumed in EC.
+      assert (HP : bytes (pre ++ [78])) by (apply bytes_app; split; [exact Hpre|repeat constructor; exact Hc]).
+      assert (Hw := crc_spec_lt32 _ HP).
+      unfold u32 in EC. change 4294967296 with (2^32) in EC. rewrite (N.mod_small _ _ Hw) in EC.
+      exists (pre ++ [78]). f_equal.
+      assert (E32 : le32 b0 b1 b2 b3 = crc32c_spec 0 (pre ++ [78])).
+      { rewrite <- EC. unfold le32. rewrite (N.mod_small (N.shiftl b3 24)); [reflexivity|].
+        rewrite N.shiftl_mul_pow2. change (2^24) with 16777216. change (2^32) with 4294967296. lia. }
+      unfold sputble32. apply le32_inj; try assumption; try apply land255_lt.
+      rewrite le32_sputble32 by exact Hw. exact E32.
+    + (* any other record: a suffix remains, crc_checked is still false *)
+      destruct (keeps_record k (pre ++ c :: t) d c EN _ _ _ ER) as [[l' ->] Hk].
+      rewrite Hd in Hk.
+      replace (pre ++ c :: l' ++ rest) with ((pre ++ c :: l') ++ rest) in * by (rewrite <- app_assoc; reflexivity).
+      exact (IH k _ d' rest r Hb Hk H Hr).
+Qed.
+
+Theorem decode_sealed k all s : bytes all -> decode k all = Ok s -> sealed all.
+Proof.
+  intros Hb H. unfold decode in H.
+  destruct (take 12 all) as [[h l]| |] eqn:ET; try discriminate.
+  destruct (take_ok _ _ _ _ ET) as [-> _].
+  destruct (bytes_eqb h (header 1) || bytes_eqb h (header 2) || bytes_eqb h (header 3)); [|discriminate].
+  match type of H with match ?R with _ => _ end = _ => destruct R as [d| |] eqn:ER; try discriminate end.
+  destruct (d_crc d) eqn:Ed; [|discriminate].
+  apply (records_sealed _ _ _ _ _ _ Hb) in ER; [exact ER|reflexivity|exact Ed].
+Qed.
+
+(* no alteration of a loaded content file confined to a window of 32 bits is loaded -- whatever the configuration
+   (k') the altered copy is read with *)
+Theorem decode_alteration_rejected k k' b b' i s : bytes b -> bytes b' -> decode k b = Ok s ->
+  agree_outside i 4 b b' -> b <> b' -> forall s', decode k' b' <> Ok s'.
+Proof.
+  intros Hb Hb' H Hw Hne s' K. apply Hne.
+  exact (sealed_window32 i b b' Hb Hb' (decode_sealed k b s Hb H) (decode_sealed k' b' s' Hb' K) Hw).
+Qed.
+
+Corollary decode_single_bit_rejected k k' pre c j post s : bytes (pre ++ [c] ++ post) -> j < 8 ->
+  decode k (pre ++ [c] ++ post) = Ok s -> forall s', decode k' (pre ++ [N.lxor c (2^j)] ++ post) <> Ok s'.
+Proof.
+  intros Hb Hj H s' K.
+  assert (Hc : c < 256).
+  { apply bytes_app in Hb. destruct Hb as [_ Hb2]. apply bytes_app in Hb2. destruct Hb2 as [Hb2 _]. inversion Hb2; assumption. }
+  assert (Hb' : bytes (pre ++ [N.lxor c (2^j)] ++ post)).
+  { apply bytes_app in Hb. destruct Hb as [Hpre Hb2]. apply bytes_app in Hb2. destruct Hb2 as [_ Hpost].
+    apply bytes_app; split; [assumption|]. apply bytes_app; split; [|assumption]. repeat constructor.
+    apply lxor_lt256; [exact Hc|apply pow2_lt256, Hj]. }
+  apply (single_bit_unsealed pre c j post Hb Hj (decode_sealed _ _ s Hb H)).
+  exact (decode_sealed _ _ s' Hb' K).
+Qed.
+
+(* ------------------------------------------------------------------------------------------------ *)
+(** * Non-vacuity: a content file written by the real binary (corpus/C09/02_data_after_crc.json, valid twin: one disk, one
+      1500-byte file, 128 bytes) is loaded by CodecModel.decode without configuration, and is a byte string *)
+Definition real_file : list N := [83; 78; 65; 80; 67; 78; 84; 50; 10; 3; 0; 0; 122; 0; 136; 120; 130; 99; 107; 22; 211; 214; 224; 227; 114; 89; 27; 67; 230; 67; 21; 209; 82; 143; 138; 77; 130; 100; 49; 128; 44; 97; 61; 159; 56; 9; 44; 159; 128; 80; 128; 44; 97; 61; 159; 56; 9; 44; 159; 128; 102; 128; 92; 139; 0; 32; 120; 122; 133; 129; 14; 30; 175; 129; 97; 98; 128; 130; 167; 204; 10; 80; 141; 198; 98; 145; 1; 143; 55; 202; 140; 33; 5; 107; 145; 51; 86; 55; 188; 99; 103; 161; 139; 124; 78; 34; 27; 147; 21; 57; 104; 128; 130; 79; 105; 16; 74; 123; 85; 134; 130; 137; 128; 78; 19; 97; 165; 246].
+
+Example real_file_loaded : (exists s, decode noconf real_file = Ok s) /\ bytes real_file /\ length real_file = 128%nat.
+Proof.
+  split; [|split; [|reflexivity]].
+  - destruct (decode noconf real_file) as [s| |] eqn:E; [exists s; reflexivity|vm_compute in E; discriminate..].
+  - unfold real_file. repeat constructor.
 Qed.
